@@ -1,12 +1,23 @@
 // ---- shim http_env: what client/http_proxy.rs (header reader + connection dialogue) refers to (TRUSTED) ----
 pub use tokio_net::TcpStream;
 pub open spec fn term_at(s: Seq<u8>, i: int) -> bool { 0 <= i && i + 4 <= s.len() && s[i] == 13u8 && s[i + 1] == 10u8 && s[i + 2] == 13u8 && s[i + 3] == 10u8 }
-// find_header_end (windows().position() over iterator adapters: outside the verifiable subset) is specified as
-// 'index just past the FIRST occurrence of CR LF CR LF'
+// term_at in terms of a window of four bytes (proved)
+pub proof fn lemma_term_window(s: Seq<u8>, i: int)
+    ensures term_at(s, i) == (0 <= i && i + 4 <= s.len() && s.subrange(i, i + 4) == seq![13u8, 10u8, 13u8, 10u8])
+{
+    if 0 <= i && i + 4 <= s.len() {
+        let w = s.subrange(i, i + 4);
+        assert(w[0] == s[i] && w[1] == s[i + 1] && w[2] == s[i + 2] && w[3] == s[i + 3]);
+        if term_at(s, i) { assert(w =~= seq![13u8, 10u8, 13u8, 10u8]); }
+    }
+}
+// <[u8]>::windows(n).position(|w| w == p) (std): index of the first window of length n that equals p
 #[verifier::external_body]
-pub fn find_header_end(buf: &[u8]) -> (r: Option<usize>)
-    ensures r is Some ==> r->Some_0 >= 4 && r->Some_0 <= buf@.len() && term_at(buf@, r->Some_0 - 4) && (forall|j: int| 0 <= j < r->Some_0 - 4 ==> !term_at(buf@, j)),
-            r is None ==> forall|j: int| !term_at(buf@, j)
+pub fn vx_windows_position(buf: &[u8], n: usize, p: &[u8]) -> (r: Option<usize>)
+    ensures buf@.len() <= usize::MAX,
+            r is Some ==> r->Some_0 + n <= buf@.len() && buf@.subrange(r->Some_0 as int, r->Some_0 + n) == p@
+                && (forall|j: int| 0 <= j < r->Some_0 && j + n <= buf@.len() ==> #[trigger] buf@.subrange(j, j + n) != p@),
+            r is None ==> forall|j: int| 0 <= j && j + n <= buf@.len() ==> #[trigger] buf@.subrange(j, j + n) != p@
 { unimplemented!() }
 #[verifier::external_body]
 pub fn vx_slice_to_vec(s: &[u8]) -> (r: Vec<u8>) ensures r@ == s@ { s.to_vec() }
